@@ -29,7 +29,6 @@ func blockAlphabet(level int) []stmt {
 		sEnd{[]stmt{sDump{}}},
 		sEnd{[]stmt{pr(lit("NR at end"), eCtx{"NR"})}},
 		sEnd{[]stmt{sEmit{kw: "emit", items: []expr{m}, names: []expr{lit("b")}}}},
-		sTee{},
 	}
 	if level >= 1 {
 		al = append(al,
